@@ -161,6 +161,27 @@ def c06(ctx, res):
         if ix < 3:
             res.samples.append({"source": e["source"], "object_hex": data[:64].hex(), "exit": ra.rc})
 
+    # ---- objects larger than one I/O block with long runs of zero words (at the end, in the middle)
+    big = [("add r0 r0 #1\nhalt\nbuf .blkw #3000\n", [0x3000, 0x1021, 0xF025] + [0] * 3000),
+           ("halt\nbuf .blkw #2047\n", [0x3000, 0xF025] + [0] * 2047),
+           ("add r0 r0 #1\nbuf .blkw #5000\nhalt\n", [0x3000, 0x1021] + [0] * 5000 + [0xF025]),
+           (".orig x4000\nbuf .blkw #8192\n", [0x4000] + [0] * 8192)]
+    for bi, (srctext, words) in enumerate(big):
+        want = b"".join(int(w).to_bytes(2, "big") for w in words)
+        for pre in ("absent", "same_size"):
+            name, obj = "big%d.asm" % bi, "big%d_%s.lc3" % (bi, pre)
+            _write(os.path.join(d, name), srctext)
+            if pre == "same_size":
+                _write(os.path.join(d, obj), b"\xAA" * len(want))
+            c = lace(ctx, ["compile", name, obj], cwd=d)
+            res.evaluations += 1
+            res.cls("object_with_long_zero_run")
+            got = open(os.path.join(d, obj), "rb").read() if os.path.exists(os.path.join(d, obj)) else None
+            if c.rc != 0 or got != want:
+                res.violate("C06/object-bytes", "object file has %s bytes, expected 2(n+1) = %d with the statement words"
+                            % (len(got) if got is not None else "no", len(want)),
+                            dict(c.brief(), source=srctext, destination_before=pre, object_tail=(got or b"")[-16:].hex()))
+
     # ---- loader predicate on arbitrary byte strings
     import random
     rnd = random.Random(ctx.seed * 7919 + 6)
@@ -187,6 +208,16 @@ def c06(ctx, res):
                 continue
             files.append(origin.to_bytes(2, "big") + b"\xF0\x25" * n)
             files.append(origin.to_bytes(2, "big") + b"\xF0\x25" * n + b"\x00")  # odd length
+
+    # accepted images that run into the word *behind* the image: it is the implicit HALT, so they end
+    # normally (exit 0) whatever their own last word is
+    behind = {}
+    for origin in (0x3000, 0x0200, 0x8000, 0xFDF0, 0xFDFB):
+        for last in (0xF025, 0x1021, 0x0000):
+            # AND R0,R0,#0 ; BRz +1 ; <last>   -> the branch skips <last> and lands behind the image
+            body = origin.to_bytes(2, "big") + b"\x50\x20\x04\x01" + last.to_bytes(2, "big")
+            behind[len(files)] = "last word x%04X" % last
+            files.append(body)
 
     def via_fifo(ix):
         return ix % 5 == 3
@@ -268,9 +299,14 @@ def c06(ctx, res):
         else:
             if not ran:
                 res.violate("C06/loader-rejected/" + cls, "an even-length image which fits below 0x10000 was rejected (exit %s)" % r.rc, detail)
+            elif ix in behind:
+                res.cls("loader:runs_into_implicit_halt")
+                if r.rc != 0:
+                    res.violate("C06/no-implicit-halt", "an image (%s) whose execution reaches the word behind it does not end normally there (exit %s): no implicit HALT"
+                                % (behind[ix], r.rc), detail)
     res.distinct += len(set(files))
     res.require(["round_trip", "dest:longer_file_existed", "dest:absent", "ext:lc3", "ext:obj", "loader:empty", "loader:odd", "loader:fits", "loader:too_long",
-                 "edge:FFFF", "edge:10000", "edge:FFFE", "delivery:fifo:odd", "delivery:fifo:even"], "L2")
+                 "edge:FFFF", "edge:10000", "edge:FFFE", "delivery:fifo:odd", "delivery:fifo:even", "loader:runs_into_implicit_halt", "object_with_long_zero_run"], "L2")
     return res
 
 
@@ -327,7 +363,8 @@ def c07(ctx, res):
     for text in (".stringz 5\n", ".blkw \"a\"\n", ".fill\n", ".fill nowhere\n", ".blkw\n", ".stringz\n", ".blkw #-1\n", ".fill x10000\n", ".blkw x10000\n"):
         cases.append((text, False, "reason:directive_operand"))
     for text in ("lab .stringz \"unterminated\nhalt\n", "add r0 r0 #1x\n", "add r0 r0 x\n", "add r0 r0 #\n", "ld r0 0x\n", "add r9 r0 r0\n",
-                 "\"stray\"\n", "add r0 r0 #99999999999\n", "halt \\\n", "add r0, r0, #1 ; ok\n@\n"):
+                 "\"stray\"\n", "add r0 r0 #99999999999\n", "halt \\\n", "add r0, r0, #1 ; ok\n@\n",
+                 "\ufeffadd r0 r0 #1\nhalt\n", "\ufeff.orig x3000\nhalt\n", "add r0 r0 #1\r\nhalt\r\n\x1a", "halt\n\x00"):
         cases.append((text, False, "reason:lexical"))
     for text in ("add r0 r0 #16\n", "add r0 r0 #-17\n", "trap x100\n", "ldr r0 r1 #32\n", "and r0 r0 x20\n", "br #256\n", "jsr #1024\n", "ld r0 #-257\n",
                  ".orig x10000\nhalt\n", "trap #-1\n"):
@@ -405,7 +442,7 @@ def _run_assembled(run):
 CLEAR = re.compile(r"\x1b\[2J\x1b\[2;1H")
 
 
-def watch_history(ctx, res, cp, prop, h, length=5, stack=False):
+def watch_history(ctx, res, cp, prop, h, length=5, stack=False, ext_sources=False):
     """Run `lace watch` on a file, rewrite it through a history of sources, compare each re-check
     with a fresh `lace check` of the same text."""
     import random
@@ -423,6 +460,8 @@ def watch_history(ctx, res, cp, prop, h, length=5, stack=False):
     pool.append(("lab .stringz \"unterminated\nhalt\n", False))
     hist = [rnd.choice(pool)[0] for _ in range(length)]
     # make sure a valid source follows an invalid one with the same labels at least once
+    # a source saved with a byte-order mark, otherwise valid: whatever the verdict, it is the same everywhere
+    hist[0] = "\ufeffstart add r0 r0 #1\nhalt\n"
     hist[1] = "loop add r0 r0 #1\nadd r0 r0 #99\n"
     hist[2] = "loop add r0 r0 #1\nbr loop\nhalt\n"
     # ... and an invalid one arrives after a valid one as an *older* file moved into place (a restored
@@ -441,6 +480,10 @@ def watch_history(ctx, res, cp, prop, h, length=5, stack=False):
     fl = ["-f", "stack"] if stack else []
     if stack:
         hist[4 % length] = "push r0\npop r1\ncall f\nhalt\nf rets\n"
+    elif ext_sources:
+        # sources using the extension, watched WITHOUT the flag: rejected naming the feature, every time
+        hist[0] = "push r0\npop r1\nhalt\n"
+        hist[4 % length] = "call f\nhalt\nf rets\n"
     p = subprocess.Popen([exe, "watch", "w.asm"] + fl, cwd=d, stdin=subprocess.DEVNULL, stdout=log,
                          stderr=subprocess.STDOUT, env=env)
     try:
@@ -586,6 +629,19 @@ def c08(ctx, res):
         cases.append(("dest_is_directory", e["source"], e["stack"], "adir", True, img))
         cases.append(("readonly_dir", e["source"], e["stack"], "ro/out.lc3", False, img))
 
+    # object files larger than one I/O block whose tail (or middle) is all zeros, and destinations
+    # that already hold something of exactly the new object's size (written after the source)
+    big = [("ok_big_zero_tail", "add r0 r0 #1\nhalt\nbuf .blkw #3000\n", [0x3000, 0x1021, 0xF025] + [0] * 3000),
+           ("ok_big_zero_tail", "halt\nbuf .blkw #2047\n", [0x3000, 0xF025] + [0] * 2047),
+           ("ok_big_zero_middle", "add r0 r0 #1\nbuf .blkw #5000\nhalt\n", [0x3000, 0x1021] + [0] * 5000 + [0xF025]),
+           ("ok_big_zero_tail", ".orig x4000\nbuf .blkw #8192\n", [0x4000] + [0] * 8192)]
+    for kind, src, words in big:
+        img = b"".join(int(w).to_bytes(2, "big") for w in words)
+        for pre in (True, False, "same_size"):
+            cases.append((kind, src, False, "out.lc3", pre, img))
+    for e in good[:3]:
+        img = b"".join(int(w).to_bytes(2, "big") for w in e["image"])
+        cases.append(("ok", e["source"], e["stack"], "out.lc3", "same_size", img))
     # destination *names*: nothing in the property depends on how the path is spelt. '\udcff' is how
     # Python spells the byte 0xFF in a file name (surrogateescape): a name that is not valid UTF-8.
     names = [("name_spaces", "my out file.lc3"), ("name_no_extension", "out"), ("name_unicode", "caf\u00e9 \u20ac.lc3"),
@@ -610,6 +666,8 @@ def c08(ctx, res):
             os.makedirs(dpath, exist_ok=True)
         elif kind == "readonly_dir":
             os.makedirs(os.path.join(cd, "ro"), exist_ok=True)
+        elif pre == "same_size" and not dest.startswith("/"):
+            _write(dpath, b"\xAA" * len(img))
         elif pre and not dest.startswith("/"):
             _write(dpath, SENT)
         before = snapshot(dpath)
@@ -628,7 +686,7 @@ def c08(ctx, res):
         res.distinct += 1
         k0 = kind.split("@")[0]
         res.cls("fault:" + k0)
-        res.cls("dest:" + ("pre-existing" if pre else "absent"))
+        res.cls("dest:" + ("pre-existing-same-size" if pre == "same_size" else "pre-existing" if pre else "absent"))
         dest = repr(os.fsencode(dest))[2:-1] if kind.startswith("name_") else dest
         detail = dict(r.brief(), source=src[-600:], fault=kind, destination=dest, destination_pre_existing=pre,
                       before=_snap_brief(before), after=_snap_brief(after))
@@ -654,7 +712,8 @@ def c08(ctx, res):
     c08_inject(ctx, res, good[:1 if not ctx.thorough() else 6], d)
     floors = ["fault:emit_fail", "fault:ok", "fault:ok_top_of_memory", "fault:dev_full", "fault:missing_parent", "fault:dest_is_directory",
               "dest:pre-existing", "dest:absent", "success_complete", "failure_destination_untouched",
-              "fault:name_not_utf8", "fault:name_long_2byte", "fault:name_long_3byte", "fault:name_long_4byte", "fault:name_long_ascii"]
+              "fault:name_not_utf8", "fault:name_long_2byte", "fault:name_long_3byte", "fault:name_long_4byte", "fault:name_long_ascii",
+              "fault:ok_big_zero_tail", "fault:ok_big_zero_middle", "dest:pre-existing-same-size"]
     res.require(floors, "L2")
     return res
 
@@ -730,7 +789,10 @@ def c14_transport(ctx, res):
             "b a loop", "break list", "bl", "continue", "c", "assembly", "a x3001", "move r3 #7", "goto x3002", "eval add r4 r4 #1",
             "bogus", "print", "si x", "break remove x3004", "reset", "help",
             # multi-byte characters: the argument reader and the stdin reader split on bytes/chars differently
-            "  ", " ", "echo caf\u00e9", "echo \u20acab", "print \uff12", "echo \U0001F34B lemon", "\u00e9", "echo a\u00e9b"]
+            "  ", " ", "echo caf\u00e9", "echo \u20acab", "print \uff12", "echo \U0001F34B lemon", "\u00e9", "echo a\u00e9b",
+            # lines longer than any fixed-size line buffer one might think of (64, 128, 256, 1024 bytes)
+            "echo " + "long line " * 9, "move r2" + " " * 70 + "x0123", "print" + " " * 130 + "r2", "echo " + "\u00e9" * 140,
+            "move r3 " + "0" * 300 + "7", "echo " + "y" * 1100, "eval add r4 r4" + " " * 64 + "#3"]
     n_scripts = 20 if not ctx.thorough() else 300
     jobs = []
     scripts = []
@@ -793,6 +855,78 @@ def c14_transport(ctx, res):
             res.violate("C14/transport/crash", "`lace debug` crashed (exit %s)" % base.rc, {"script": scripts[si], "run": base.brief()})
     res.cls("l2:transport_scripts", len(by))
     res.samples.append({"transport_script": scripts[0]})
+
+
+# ------------------------------------------------------------------ C16 (L2: the real readers)
+
+def c16_cli(ctx, res):
+    """Sessions through the real `--command` and standard-input readers whose script ends in every
+    awkward way (no final newline, comment-like text, separators, stray quotes, NUL, multi-byte)
+    followed by end of input, on programs that terminate. The verdict is on CPU time: a session that
+    burns 10 CPU-seconds (normal: milliseconds) spins; a wall-clock expiry alone is undecided."""
+    import resource
+    d = _dir(ctx, "c16")
+    progs = {"halts.asm": "lea r0 m\nputs\nhalt\nm .stringz \"ok\"\n",
+             "runs_off.asm": ".orig xFDFC\nadd r1 r1 #1\nadd r1 r1 #1\n",
+             "jumps_low.asm": ".orig x4000\nld r2 t\njmp r2\nt .fill x3ff0\n",
+             "to_ffff.asm": "ld r2 t\njmp r2\nt .fill xFFFF\n"}
+    for n, t in progs.items():
+        _write(os.path.join(d, n), t)
+    endings = ["step", "continue", "// note", "step // note", "continue //", "//", "# note", "-- note", "; ", ";", ";;", "step;",
+               "si 3 ;", "\"", "'", "\\", " ", "\t", "\r", "quit //", "\x00", "\u00e9", "echo //", "/* c */", "/", "step /", "registers\r"]
+    prefixes = ["", "step\n", "continue\n", "break add ^1\ncontinue\n"]
+    jobs = []
+    for pn in progs:
+        for ei, end in enumerate(endings):
+            pre = prefixes[(ei + len(pn)) % len(prefixes)]
+            for final_nl in (False, True):
+                for via in ("stdin", "arg"):
+                    if not ctx.thorough() and (ei + final_nl + (via == "arg") + len(pn)) % 3:
+                        continue
+                    jobs.append((pn, pre + end + ("\n" if final_nl else ""), via))
+
+    def limit():
+        resource.setrlimit(resource.RLIMIT_CPU, (10, 12))
+
+    def one(job):
+        pn, script, via = job
+        exe = common.cli_bin(ctx)
+        env = dict(common.ENV, NO_COLOR="1", XDG_CACHE_HOME=ctx.scratch)
+        args = [exe, "debug", pn, "--minimal"]
+        data = b""
+        if via == "arg":
+            args += ["--command", script.replace("\n", ";").replace("\x00", "")]
+        else:
+            data = script.encode()
+        t0 = time.time()
+        try:
+            p = subprocess.run(args, input=data, stdout=subprocess.PIPE, stderr=subprocess.PIPE, cwd=d, env=env,
+                               timeout=120, preexec_fn=limit)
+            rc = p.returncode
+            out, err = p.stdout, p.stderr
+        except subprocess.TimeoutExpired as ex:
+            rc, out, err = None, ex.stdout or b"", ex.stderr or b""
+        return job, rc, out[-300:], err[-300:], time.time() - t0
+    for (pn, script, via), rc, out, err, wall in pmap(one, jobs):
+        res.evaluations += 1
+        res.cls("l2:session_through_real_reader:" + via)
+        res.cls("l2:program:" + pn.split(".")[0])
+        if not script.endswith("\n"):
+            res.cls("l2:script_without_final_newline")
+        detail = {"program": progs[pn], "script": script, "delivery": via, "exit": rc,
+                  "stdout_tail": out.decode("utf-8", "replace"), "stderr_tail": err.decode("utf-8", "replace")}
+        if rc in (-24, -9) and wall < 110:
+            res.violate("C16/cli/spins", "`lace debug` used more than 10 s of CPU time on a terminating program with a %d-byte script "
+                        "followed by end of input (normal cost: milliseconds)" % len(script), detail)
+        elif rc is None:
+            res.inconclusive["session exceeded the 120 s wall-clock watchdog without using its CPU budget"] = \
+                res.inconclusive.get("session exceeded the 120 s wall-clock watchdog without using its CPU budget", 0) + 1
+        elif rc == 101 or (rc is not None and rc < 0):
+            res.violate("C16/cli/crash", "`lace debug` crashed (exit %s)" % rc, detail)
+        else:
+            res.cls("l2:session_terminated")
+    res.require(["l2:session_through_real_reader:stdin", "l2:session_through_real_reader:arg", "l2:script_without_final_newline",
+                 "l2:session_terminated", "l2:program:halts", "l2:program:runs_off", "l2:program:jumps_low", "l2:program:to_ffff"], "L2")
 
 
 # ------------------------------------------------------------------ C18
@@ -874,7 +1008,11 @@ def c18_cli(ctx, res):
             res.violate("C18/cli/behaviour-depends-on-flag/" + which.replace(" ", "-"),
                         "a program using none of the four mnemonics gives a different %s under `lace run` with `-f stack`" % which,
                         {"source": e["source"][-800:], "flag_off": off.brief(), "flag_on": on.brief()})
-    res.require(["l2:ext_program", "l2:plain_program", "l2:raw_0xD", "l2:plain_program_run", "l2:plain_program_run_r7_changed"], "L2")
+    # `lace watch` keeps one process (and one feature setting) across re-checks
+    watch_history(ctx, res, cp, "C18", 60, stack=True)
+    watch_history(ctx, res, cp, "C18", 61, ext_sources=True)
+    res.require(["l2:ext_program", "l2:plain_program", "l2:raw_0xD", "l2:plain_program_run", "l2:plain_program_run_r7_changed",
+                 "watch_recheck", "watch_recheck_with_stack_flag"], "L2")
 
 
 # ------------------------------------------------------------------ C09 (L2 sample)
@@ -908,6 +1046,12 @@ def c09_cli(ctx, res, limit):
         stdin = bytes(e["input"])
         plain = lace(ctx, ["run", name, "--minimal"] + feat(e), stdin=stdin, cwd=d, timeout=30)
         args = ["debug", name, "--minimal"] + feat(e)
+        if reads_input and ix % 2 == 1:
+            # the script itself arrives on standard input, one command per line, ending in `quit`; the
+            # bytes behind that line are the program's input: the debugger must leave them alone
+            script = "\n".join(cmds)
+            dbg = lace(ctx, args, stdin=script.encode() + b"\n" + stdin, cwd=d, timeout=30)
+            return ix, "(stdin) " + script, plain, dbg
         if script:
             args += ["--command", script]
         dbg = lace(ctx, args, stdin=stdin, cwd=d, timeout=30)
@@ -918,6 +1062,8 @@ def c09_cli(ctx, res, limit):
         res.cls("l2:debug_vs_run")
         if e["input"]:
             res.cls("l2:debug_vs_run_with_program_input")
+            if script.startswith("(stdin) "):
+                res.cls("l2:script_and_program_input_share_stdin")
         detail = {"source": e["source"][-800:], "script": script, "stdin": e["input"], "plain": plain.brief(), "debugged": dbg.brief()}
         if dbg.rc is None or dbg.crashed:
             res.violate("C09/cli/crash", "`lace debug` crashed or hung (exit %s) where `lace run` exits %s" % (dbg.rc, plain.rc), detail)
@@ -925,7 +1071,7 @@ def c09_cli(ctx, res, limit):
             res.violate("C09/cli/exit-status", "exit status %s under the debugger, %s without" % (dbg.rc, plain.rc), detail)
         elif dbg.out != plain.out:
             res.violate("C09/cli/stdout", "program output differs between `lace debug` and `lace run`", detail)
-    res.require(["l2:debug_vs_run", "l2:debug_vs_run_with_program_input"], "L2")
+    res.require(["l2:debug_vs_run", "l2:debug_vs_run_with_program_input", "l2:script_and_program_input_share_stdin"], "L2")
 
 
 # ------------------------------------------------------------------ C05 (L2 sample)
